@@ -61,7 +61,8 @@ Section Ext.
   Lemma exec_instr_ext a i a' o :
     exec_instr (spec_step cfg) spec_add (@length anode) L base a i = (a', o) -> ext a a'.
   Proof.
-    destruct i as [x|p ts|r n body]; cbn [exec_instr].
+    destruct i as [x|p ts|r n body|ca]; cbn [exec_instr].
+    4: { intros H. injection H as <- _. apply ext_refl. }
     - apply exec_act_ext.
     - destruct (Nat.ltb (ref_idx L base p) (length a)); intros H.
       + unfold spec_add in H. injection H as <- _. apply ext_app.
@@ -281,7 +282,10 @@ Section Frame.
     exists c', (c' = c \/ c' = S c) /\ scoped c' [] = true /\ (forall is, scoped c (i :: is) = true -> scoped c' is = true) /\
                hid a' L base c' /\ frame L base (instr_keys i) a a'.
   Proof.
-    intros Hh Hs H. destruct i as [x|p ts|r n body]; cbn [exec_instr scoped instr_keys] in *.
+    intros Hh Hs H. destruct i as [x|p ts|r n body|ca]; cbn [exec_instr scoped instr_keys] in *.
+    4: { injection H as <- _. exists c. split; [left; reflexivity|]. split; [reflexivity|].
+         split; [|split; [exact Hh|apply frame_refl]].
+         intros is His. apply andb_prop in His. apply His. }
     - apply andb_prop in Hs. destruct Hs as [Hr _].
       destruct (exec_act_frame a c x a' o Hh Hr H) as [Hh1 Hf1].
       exists c. split; [left; reflexivity|]. split; [reflexivity|]. split; [|split; assumption].
@@ -318,7 +322,7 @@ Section Frame.
     - injection H as <- _. exists c. split; [exact Hh|]. split; [apply frame_refl|]. intros _ rest Hr. exact Hr.
     - destruct (exec_instr (spec_step cfg) spec_add (@length anode) L base a i) as [a1 o1] eqn:E.
       assert (Hs1 : scoped c [i] = true).
-      { destruct i as [x|p ts|r n body]; cbn [scoped] in *; apply andb_prop in Hs; destruct Hs as [Hs _]; rewrite Hs; reflexivity. }
+      { destruct i as [x|p ts|r n body|ca]; cbn [scoped] in *; apply andb_prop in Hs; destruct Hs as [Hs _]; rewrite Hs; reflexivity. }
       destruct (exec_instr_frame a c i a1 o1 Hh Hs1 E) as (c1 & _ & _ & Hsc & Hh1 & Hf1).
       assert (Hw : frame L base (instr_keys i ++ flat_map instr_keys is) a a1)
         by (eapply frame_weaken; [|exact Hf1]; intros k I; apply in_or_app; left; exact I).
@@ -332,7 +336,7 @@ End Frame.
 Lemma scoped_app_l : forall is1 is2 c, scoped c (is1 ++ is2) = true -> scoped c is1 = true.
 Proof.
   induction is1 as [|i is1 IH]; intros is2 c H; [reflexivity|].
-  destruct i as [x|p ts|r n body]; cbn [app scoped] in *; apply andb_prop in H; destruct H as [H1 H2]; rewrite H1;
+  destruct i as [x|p ts|r n body|ca]; cbn [app scoped] in *; apply andb_prop in H; destruct H as [H1 H2]; rewrite H1;
     cbn [andb]; eapply IH; eauto.
 Qed.
 
